@@ -643,6 +643,81 @@ def _linform(e, fl, at, Lsym, depth=0):
     return None
 
 
+def r911(ctx):
+    """Metropolis length budget of the shooting move: accepting exactly when xi <= n_old/n_new
+    (interior points) is implemented as a length limit  maxlen = min(int((L_old - 2)/xi) + 2, maxlength),
+    backward budget maxlen - 1 (the forward part needs one step), forward budget
+    maxlen - len(back) + 1 (the shooting point is shared). Checked as linear forms."""
+    rid = "R-9.11"
+    f = ctx.tree.func(TIS, "shoot")
+    fl = flow_of(f)
+
+    def lin(e):
+        if isinstance(e, ast.Constant) and isinstance(e.value, int) and not isinstance(e.value, bool):
+            return {1: e.value}
+        if isinstance(e, (ast.Name, ast.Attribute, ast.Subscript)):
+            return {ast.unparse(e).replace('"', "'"): 1}
+        if isinstance(e, ast.BinOp) and isinstance(e.op, (ast.Add, ast.Sub)):
+            a, b = lin(e.left), lin(e.right)
+            if a is None or b is None:
+                return None
+            out = dict(a)
+            for k, v in b.items():
+                out[k] = out.get(k, 0) + (v if isinstance(e.op, ast.Add) else -v)
+            return {k: v for k, v in out.items() if v != 0}
+        return None
+
+    # the budget
+    budget = None
+    for st in walk_local(f):
+        if isinstance(st, ast.Assign) and isinstance(st.targets[0], ast.Name) and isinstance(st.value, ast.Call) and last_name(st.value) == "min":
+            for a in st.value.args:
+                if isinstance(a, ast.BinOp) and isinstance(a.op, ast.Add) and isinstance(a.left, ast.Call) and last_name(a.left) == "int":
+                    budget = (st, a)
+    if budget is None:
+        raise AnalysisError("R-9.11: maxlen = min(int(<interior points> / <draw>) + k, maxlength) not found in shoot")
+    st, a = budget
+    mname = st.targets[0].id
+    inner = a.left.args[0]
+    c2 = lin(a.right)
+    okb = False
+    why = ""
+    if isinstance(inner, ast.BinOp) and isinstance(inner.op, ast.Div):
+        num = lin(inner.left)
+        draw = inner.right
+        is_draw = isinstance(draw, ast.Call) and isinstance(draw.func, ast.Attribute) and draw.func.attr in ("random", "rand", "uniform") and "rgen" in ast.unparse(draw.func.value)
+        plen = [k for k in (num or {}) if k != 1]
+        if num is not None and len(plen) == 1 and plen[0].endswith(".length") and num[plen[0]] == 1 and num.get(1, 0) == -2 and c2 == {1: 2} and is_draw:
+            okb = True
+        else:
+            why = f"numerator {short(inner.left, 30)}, offset {short(a.right, 10)}, divisor {short(draw, 30)}"
+    else:
+        why = "not a quotient"
+    if okb:
+        ctx.ok(rid, st, "shoot: length limit = int((L_old - 2)/xi) + 2 with xi from the job stream: a trial is accepted iff xi <= (L_old - 2)/(L_new - 2)")
+    else:
+        ctx.bad(rid, st, f"shoot: the length limit that implements the Metropolis rule is not int((L_old - 2)/xi) + 2 ({why}): the acceptance ratio is not n_old/n_new over interior points", construct="shoot: length budget " + short(a, 60))
+    # backward and forward budgets
+    eps = []
+    for s2 in walk_local(f):
+        if isinstance(s2, ast.Assign) and isinstance(s2.targets[0], ast.Name) and isinstance(s2.value, ast.Call) and last_name(s2.value) == "empty_path":
+            eps.append((s2.targets[0].id, s2, kwarg(s2.value, "maxlen", 0)))
+    back = [e for e in eps if "back" in e[0]]
+    forw = [e for e in eps if "forw" in e[0]]
+    if len(back) != 1 or len(forw) != 1:
+        raise AnalysisError("R-9.11: path_back / path_forw = empty_path(maxlen=...) not found in shoot")
+    bl = lin(back[0][2])
+    if bl == {mname: 1, 1: -1}:
+        ctx.ok(rid, back[0][1], "shoot: backward budget = maxlen - 1 (the forward part needs at least one step)")
+    else:
+        ctx.bad(rid, back[0][1], f"shoot: the backward segment may take `{short(back[0][2], 30)}` frames, not maxlen - 1: the pasted path can exceed the Metropolis length limit (or is cut one short)", construct="shoot: backward budget " + short(back[0][2], 30))
+    fw = lin(forw[0][2])
+    if fw == {mname: 1, f"{back[0][0]}.length": -1, 1: 1}:
+        ctx.ok(rid, forw[0][1], "shoot: forward budget = maxlen - len(back) + 1 (the shooting point is shared): back + forward - 1 <= maxlen")
+    else:
+        ctx.bad(rid, forw[0][1], f"shoot: the forward segment may take `{short(forw[0][2], 40)}` frames, not maxlen - len(back) + 1: back + forward - 1 is not bounded by the Metropolis length limit", construct="shoot: forward budget " + short(forw[0][2], 40))
+
+
 def r910(ctx):
     """A verdict is not silently overwritten: every store `<path>.status = <code>` in the move
     functions reaches the end of the function or a read of that status on some path that does not
@@ -869,6 +944,7 @@ def run(ctx):
     ctx.rule("R-9.8", "the tests that decide whether a path end still needs extension compare the frame's order parameter with elements of the ensemble's own interfaces (not a cap / sub-ensemble / modified copy)", floor=2)
     ctx.rule("R-9.9", "no `for` variable of the move / path code is read after its loop has ended", floor=15)
     ctx.rule("R-9.10", "no verdict (`<path>.status = code`) of a move function is overwritten on every path before it is read", floor=10)
+    ctx.rule("R-9.11", "Metropolis length budget of shoot: int((L_old - 2)/xi) + 2, backward budget maxlen - 1, forward budget maxlen - len(back) + 1 (linear forms)", floor=3)
     ctx.rule("R-9.1", "every return of a move function pairs flag True with status 'ACC' and flag False with a non-'ACC' status", floor=30)
     ctx.rule("R-9.2", "the job's path is replaced only under status == 'ACC'; treat_output numbers only new paths", floor=4)
     ctx.rule("R-9.3", "frames reach engine sinks only as fresh copies; input paths are never extended in place", floor=13)
@@ -883,6 +959,7 @@ def run(ctx):
     ctx.attempt(r96, ctx)
     ctx.attempt(r98, ctx)
     ctx.attempt(r910, ctx)
+    ctx.attempt(r911, ctx)
     from .shared import stale_loop_variable
     ctx.attempt(stale_loop_variable, ctx, "R-9.9", [TIS, PATH], None, " (the move would test / store another frame or ensemble)")
     from .shared import role_agreement
@@ -890,6 +967,11 @@ def run(ctx):
 
 
 VARIANTS = [
+    B("c09-metropolis-counts-end-points", TIS, "            int((path.length - 2) / ens_set[\"rgen\"].random()) + 2,", "            int((path.length - 1) / ens_set[\"rgen\"].random()) + 2,", "R-9.11", control=True),
+    B("c09-metropolis-offset-one", TIS, "            int((path.length - 2) / ens_set[\"rgen\"].random()) + 2,", "            int((path.length - 2) / ens_set[\"rgen\"].random()) + 1,", "R-9.11"),
+    B("c09-forward-budget-no-shared-point", TIS, "    path_forw = path.empty_path(maxlen=(maxlen - path_back.length + 1))", "    path_forw = path.empty_path(maxlen=(maxlen - path_back.length))", "R-9.11"),
+    B("c09-backward-budget-full", TIS, "    path_back = path.empty_path(maxlen=maxlen - 1)", "    path_back = path.empty_path(maxlen=maxlen)", "R-9.11"),
+    K("c09-keep-forward-budget-reordered", TIS, "    path_forw = path.empty_path(maxlen=(maxlen - path_back.length + 1))", "    path_forw = path.empty_path(maxlen=(1 + maxlen - path_back.length))"),
     B("c09-swap-zero-btx-overwritten", TIS, '    if path0.length == maxlen0:\n        path0.status = "BTX"\n    elif path0.length < 3:', '    if path0.length == maxlen0:\n        path0.status = "BTX"\n    if path0.length < 3:', "R-9.10", control=True, why="seeded C09_d"),
     B("c09-stale-interface-after-loop", TIS, "            cv.append(1.0 if intf_i <= path_max else 0.0)\n    cv.append(0.0)", "            pass\n    cv.append(1.0 if intf_i <= path_max else 0.0)\n    cv.append(0.0)", "R-9.9", control=True),
     B("c09-extender-cap-bound", TIS, '    interfaces = ens_set["interfaces"]\n    # ensemble[\'system\'] = source_seg.phasepoints[0].copy()', '    interfaces = list(ens_set["interfaces"])\n    if ens_set["mc_move"] == "wf":\n        interfaces[2] = ens_set["tis_set"].get("interface_cap", interfaces[2])\n    # ensemble[\'system\'] = source_seg.phasepoints[0].copy()', "R-9.8", control=True, why="seeded C09_c"),
